@@ -147,4 +147,11 @@ def stateOutsB (net : Net) : Bool := (ppioS net).all fun q => decide (0 < (sNode
 def zeroCapB (p : MapIn) : Bool :=
   (ppioS p.net).all fun q => ((sNodeAt p.net q).inPin 0).isSome || p.loc (p.ix.ppo + q) == p.loc p.ix.zero
 
+/-- side condition of C01 `cycle_strip_irrelevant`: every captured line's driver is scheduled (`topological_order()` lists
+    every node) -/
+def capDriversB (net : Net) (order : List Nat) : Bool :=
+  (List.range net.sNodes.length).all fun p => match (sNodeAt net p).inPin 0 with
+    | some l => order.contains (net.line l).driver
+    | none => true
+
 end KV.Cycle
